@@ -23,15 +23,19 @@ def tie_violations(ctx, mism, ops_path):
         return
     up = os.path.join(ctx.work, "units.json")
     units = json.load(open(up)) if os.path.exists(up) else {}
-    seen = set()
+    # per query kind the disagreement on the SMALLEST unit (the fixed tiny units come out first)
+    best = {}
     for m in mism:
         toks = m["op"].split(" ")
-        if len(toks) < 2 or toks[0] in seen:
+        if len(toks) < 2 or toks[1] not in units:
             continue
-        seen.add(toks[0])
-        u = units.get(toks[1])
-        if not u:
-            continue
+        size = len(units[toks[1]]["idl"])
+        if toks[0] not in best or size < best[toks[0]][0]:
+            best[toks[0]] = (size, m)
+    for q in sorted(best):
+        m = best[q][1]
+        toks = m["op"].split(" ")
+        u = units[toks[1]]
         what = {"QO": "outcome (accepted / refused by MustReserve)", "QG": "package-level identifiers", "QT": "struct members",
                 "QP": "method parameter names", "QI": "import table"}.get(toks[0], toks[0])
         ctx.add_violation("tie:" + toks[0], "the %s of the generated file differ from the model Lib/Names.lean" % what,
@@ -105,7 +109,7 @@ def run(ctx):
         if drv:
             ops = os.path.join(ctx.work, "ops.txt")
             model = ctx.run_model("tv_c01", ops)
-            mism = ctx.diff_lines("c01:Names-vs-generated-declarations", ops, os.path.join(ctx.work, "impl.txt"), model)
+            mism = ctx.diff_lines("c01:Names-vs-generated-declarations", ops, os.path.join(ctx.work, "impl.txt"), model, limit=100000)
             tie_violations(ctx, mism, ops)
     return ctx.finish(rule="(IDL program, backend, option set) units: seeded idlgen programs with the stress name pool x every documented option alone "
                            "(rotating) and random combinations, -r on/off, fastgo; dedicated known-defect units; switch stream. A correspondence line "
